@@ -47,6 +47,10 @@ func SetEdns0(req *dns.Msg, policy *ecs.Policy, client netip.Addr) (*dns.OPT, in
 	cookie := ""
 
 	if opt != nil {
+		// RFC 6891 6.1.1 allows a single OPT per message. IsEdns0 selected the
+		// last one; any other would travel upstream with every client option
+		// (raw ECS, cookies, local codes) intact, so it does not survive here.
+		req.Extra = dropOtherOPT(req.Extra, opt)
 		size = int(opt.UDPSize())
 		if size < dns.MinMsgSize {
 			size = dns.MinMsgSize
@@ -108,6 +112,15 @@ func SetEdns0(req *dns.Msg, policy *ecs.Policy, client netip.Addr) (*dns.OPT, in
 	}
 
 	return opt, size, cookie, nsid, do
+}
+
+// dropOtherOPT returns extra without any OPT record other than keep. The
+// common single-OPT request is returned unchanged (no allocation).
+func dropOtherOPT(extra []dns.RR, keep *dns.OPT) []dns.RR {
+	return filterOut(extra, func(rr dns.RR) bool {
+		o, ok := rr.(*dns.OPT)
+		return ok && o != keep
+	})
 }
 
 // GenerateServerCookie return generated edns server cookie.
